@@ -253,6 +253,25 @@ def validate(ctx, tag, trace_module, defs, consts, trace, levels=(1, 2), shards=
     return res
 
 
+def sanitize_trace(trace):
+    """After the driver died: keep the longest prefix of well-formed JSON lines."""
+    good = []
+    try:
+        with open(trace, errors="replace") as f:
+            for line in f:
+                try:
+                    json.loads(line)
+                except Exception:
+                    break
+                good.append(line)
+    except OSError:
+        pass
+    if not good:
+        good = ['{"id":0,"hdr":true}\n']
+    with open(trace, "w") as f:
+        f.writelines(good)
+
+
 def find_record(trace, rid):
     with open(trace) as f:
         hdr = f.readline()
@@ -380,6 +399,8 @@ def impl_phase(ctx, tag, exe, mode_args, scope_args, trace_module, defs, consts,
     else:
         args = [mode_args[0], trace] + list(mode_args[1:])
     summ, died = run_driver(ctx, exe, args + ["--"] + list(scope_args), timeout=timeout, env=env)
+    if died:
+        sanitize_trace(trace)
     res = validate(ctx, tag, trace_module, defs, consts, trace, levels=levels, timeout=timeout)
     nviol = judge_trace(ctx, tag, trace, res, props, {"mode": mode_args[0], "args": [str(a) for a in mode_args[1:]], "scope": [str(s) for s in scope_args]},
                         summ=summ, died=died)
